@@ -49,13 +49,14 @@ struct seq_fn
         proj.add(1, (T(k % 3) + T(0.5)) / T(3) * T(0.7L), v);      // three bins on [0, 0.7]: the inverse width is no round number
         proj.add(2, (T(k % 2) + T(0.5)) / T(2), T(0.5), v);
         proj.add(3, T(512) + T(1024) * T(k % 2), v);                  // two bins of width 1024 (bin area far above one)
+        proj.add(4, T(0.5), v); proj.add(4, T(0.25), v);              // one bin that every call fills twice (two objects of one event)
         return v;
     }
 };
 
-// bin sums of the three multi-bin distributions: 3 + 2 + 2 values
+// bin sums of the further distributions: 3 + 2 + 2 + 1 values
 template <typename T>
-struct sums { T plain, with_dist, bin; sz calls_seen; T more[7]; };
+struct sums { T plain, with_dist, bin; sz calls_seen; T more[8]; };
 
 template <typename T>
 static sums<T> run(std::function<T(sz)> const& value, sz n)
@@ -69,7 +70,7 @@ static sums<T> run(std::function<T(sz)> const& value, sz n)
     counter = 0;
     auto const r2 = hep::plain_iteration(hep::make_integrand<T>(seq_fn<T>{&value, &counter}, 1,
         hep::make_dist_params<T>(2, T(0), T(1), "bin"), hep::make_dist_params<T>(3, T(0), T(0.7L), "three"),
-        hep::distribution_parameters<T>(2, 1, T(0), T(1), T(0), T(1), "two"), hep::make_dist_params<T>(2, T(0), T(2048), "wide")), n, g2);
+        hep::distribution_parameters<T>(2, 1, T(0), T(1), T(0), T(1), "two"), hep::make_dist_params<T>(2, T(0), T(2048), "wide"), hep::make_dist_params<T>(1, T(0), T(1), "twice")), n, g2);
     s.with_dist = r2.sum();
     // the first distribution has two bins of width 1/2; everything goes to the second one (the division by 2 is exact)
     s.bin = r2.distributions().at(0).results().at(1).sum() / T(2);
@@ -77,6 +78,7 @@ static sums<T> run(std::function<T(sz)> const& value, sz n)
     for (sz b = 0; b != 3; ++b) s.more[b] = r2.distributions().at(1).results().at(b).sum();
     for (sz b = 0; b != 2; ++b) s.more[3 + b] = r2.distributions().at(2).results().at(b).sum();
     for (sz b = 0; b != 2; ++b) s.more[5 + b] = r2.distributions().at(3).results().at(b).sum();
+    s.more[7] = r2.distributions().at(4).results().at(0).sum();
     return s;
 }
 
@@ -85,7 +87,7 @@ static sums<T> run(std::function<T(sz)> const& value, sz n)
 template <typename T>
 static void judge_more(report& r, sums<T> const& s, std::function<T(sz)> const& value, sz n, std::string const& id, std::string const& desc)
 {
-    __float128 ex[7] = {0, 0, 0, 0, 0, 0, 0}, mg[7] = {0, 0, 0, 0, 0, 0, 0};
+    __float128 ex[8] = {0, 0, 0, 0, 0, 0, 0, 0}, mg[8] = {0, 0, 0, 0, 0, 0, 0, 0};
     for (sz k = 0; k != n; ++k)
     {
         T const tv = value(k);
@@ -94,19 +96,20 @@ static void judge_more(report& r, sums<T> const& s, std::function<T(sz)> const& 
         ex[k % 3] += v; mg[k % 3] += v < 0 ? -v : v;
         ex[3 + k % 2] += v; mg[3 + k % 2] += v < 0 ? -v : v;
         ex[5 + k % 2] += v; mg[5 + k % 2] += v < 0 ? -v : v;
+        ex[7] += 2 * v; mg[7] += 2 * (v < 0 ? -v : v);
     }
     // bin width of the three-bin distribution exactly as the library stores it
     __float128 const width3 = static_cast<__float128>(hep::make_dist_params<T>(3, T(0), T(0.7L), "three").bin_size_x());
-    for (sz b = 0; b != 7; ++b)
+    for (sz b = 0; b != 8; ++b)
     {
-        __float128 const scale = b < 3 ? 1 / width3 : b < 5 ? 2 : static_cast<__float128>(1) / 1024;
+        __float128 const scale = b < 3 ? 1 / width3 : b < 5 ? 2 : b < 7 ? static_cast<__float128>(1) / 1024 : 1;
         __float128 d = static_cast<__float128>(s.more[b]) - ex[b] * scale;
         if (d < 0) d = -d;
         // (the division by the bin width is one more rounding: relative for normal results, one subnormal step otherwise)
         if (!(d <= 3 * static_cast<__float128>(std::numeric_limits<T>::epsilon()) * mg[b] * scale + 2 * static_cast<__float128>(std::numeric_limits<T>::denorm_min())))
         {
-            r.violate("accuracy-lost/bin-of-multi-bin-distribution", id, std::string(vf::type_name<T>()) + " " + desc + ": bin " + std::to_string(b < 3 ? b : b < 5 ? b - 3 : b - 5) + " of distribution "
-                + (b < 3 ? "1" : b < 5 ? "2" : "3 (bins of width 1024)") + " reports " + vf::dec(static_cast<long double>(s.more[b])) + ", exact " + vf::dec(static_cast<long double>(ex[b] * scale)) + ", error "
+            r.violate("accuracy-lost/bin-of-multi-bin-distribution", id, std::string(vf::type_name<T>()) + " " + desc + ": bin " + std::to_string(b < 3 ? b : b < 5 ? b - 3 : b < 7 ? b - 5 : 0) + " of distribution "
+                + (b < 3 ? "1" : b < 5 ? "2" : b < 7 ? "3 (bins of width 1024)" : "4 (filled twice per call)") + " reports " + vf::dec(static_cast<long double>(s.more[b])) + ", exact " + vf::dec(static_cast<long double>(ex[b] * scale)) + ", error "
                 + vf::dec(static_cast<long double>(d / (static_cast<__float128>(std::numeric_limits<T>::epsilon()) * mg[b] * scale))) + " eps*sum|v| (bound 3)");
             return;
         }
@@ -319,6 +322,8 @@ static void part_c(report& r, bool thorough)
         // a few non-finite evaluations in between: they are no part of any sum, and the values after them still are
         {"sparse-non-finite", [=](sz i) { return i % 997 == 5 ? (i % 3 == 0 ? std::numeric_limits<T>::quiet_NaN() : i % 3 == 1 ? std::numeric_limits<T>::infinity() : -std::numeric_limits<T>::infinity())
             : (i % 2 ? T(-1) : T(1)) * (T(1) + T(i % 7) * eps) + (i < 3 ? T(4096) : T()); }},
+        // the pending compensation must survive an ignored non-finite value
+        {"one-large-then-small-with-non-finite", [=](sz i) { return i == 0 ? T(1) : i % 4 == 2 ? (i % 8 == 2 ? std::numeric_limits<T>::infinity() : std::numeric_limits<T>::quiet_NaN()) : eps * T(0.75); }},
         {"mixed-magnitudes", [=](sz i) { return std::ldexp(T(1) + T(vf::splitmix64(i) % 1024) * eps, int(vf::splitmix64(i + 77) % 40) - 20) * ((vf::splitmix64(i + 5) & 1) ? T(1) : T(-1)); }},
     };
     for (auto const& f : fams)
